@@ -107,6 +107,28 @@ fn stages(sh: &mut x::shell::Shell, line: &str, cheap_only: bool) -> Value {
     json!({"failed": failed})
 }
 
+
+// ---- C16: the script path's re-rendering of a line vs the line itself, at token level ----
+fn seg_tokens(line: &str) -> Value {
+    let mut out = Vec::new();
+    for seg in x::parser_line::line_to_cmds(line) {
+        if seg == ";" || seg == "&&" || seg == "||" {
+            out.push(json!({"op": seg}));
+        } else {
+            let li = x::parser_line::parse_line(&seg);
+            out.push(json!({"tokens": toks(&li.tokens), "complete": li.is_complete}));
+        }
+    }
+    Value::Array(out)
+}
+
+fn rerender(line: &str) -> Value {
+    let args = vec!["script".to_string()];
+    let re = x::scripting::verif_expand_args(line, &args);
+    let li = x::parser_line::parse_line(line);
+    json!({"rendered": re, "whole_tokens": toks(&li.tokens), "direct": seg_tokens(line), "via_script": seg_tokens(&re)})
+}
+
 // ---- C06: replay of JobControl paths through the fake kernel ----
 fn job_snapshot(sh: &x::shell::Shell) -> Value {
     let mut m = serde_json::Map::new();
@@ -241,6 +263,10 @@ fn main() {
                 Err(e) => json!({"panic": panic_msg(e)}),
             },
             "jobs" => match catch_unwind(AssertUnwindSafe(|| jobs_case(&case))) {
+                Ok(v) => v,
+                Err(e) => json!({"panic": panic_msg(e)}),
+            },
+            "rerender" => match catch_unwind(AssertUnwindSafe(|| rerender(&line))) {
                 Ok(v) => v,
                 Err(e) => json!({"panic": panic_msg(e)}),
             },
